@@ -15,6 +15,10 @@ def main(pid, tier, repo=None):
         unsafe_rules.rule_refill(ctx)
         unsafe_rules.rule_transmute(ctx)
         unsafe_rules.rule_grouped(ctx)
+        unsafe_rules.rule_type_census(ctx, "grid")
+    if tier == "thorough":
+        from .. import witness
+        witness.rule(ctx, ["MutableViewIsNotClone", "MutableViewIsNotCopy", "RawViewConstructionIsUnsafe", "SplitHalvesBorrowParent"])
     ctx.not_decided("bounds of SIMD kernels and scratch buffers (class h), std::arch itself")
     ctx.not_decided("wrapped integer arithmetic feeding safe indexing (a panic, i.e. C01, not UB)")
     return ctx.finish(
